@@ -1,6 +1,7 @@
 import XcpModel.Walker
 import XcpProofs.DerefTree
 import XcpProofs.DerefConc
+import XcpProofs.MultiDeref
 import XcpProofs.WalkerLemmas
 /-! # C13 — `--dereference` copies what links point to, or fails; never leaves links or gaps
 
@@ -157,5 +158,41 @@ theorem every_interleaving_leaves_the_dereferenced_tree (fs : Fs) (c : Cfg) (hd 
     st.failed = false ∧
     (L0.final st = true → FsEq st.fs { fs with root := fs.root.setAt tb.names m }) :=
   deref_fresh_concurrent_node fs c hd hn src tb srcNode m fuel hwf hsrc hsn hcop hder htb hne habs hpar hlen ls st hrun
+
+/-- SEVERAL sources with `-L` into an existing directory (`xcp -rL s1 … sn DEST/`): each source's tree seen through the
+links (`e.s`) compatible with what its target holds, no source reading from any target region (`ReadsAway`), distinct base
+names: every operation of the concatenated walk succeeds and every target is overlaid with the dereferenced tree, in argv
+order (the operation lists are computed in the initial state; the form that re-walks later sources in the changed state is
+not proved — compared per run) -/
+theorem several_sources_each_dereferenced (fs : Fs) (c : Cfg) (dest : RPath) (items : List DerefSrc)
+    (hd : c.dereference = true) (hn : c.noClobber = false)
+    (hwf : FsEq fs fs)
+    (hdd : ∃ es, fs.root.getAt dest.names = some (.dir es))
+    (hsrc : ∀ e ∈ items, AbsNames e.path ∧ e.path.fileName = some e.base ∧
+      derefS fs walkFuel e.path.names [] = some e.s)
+    (hnd : (items.map (·.base)).Nodup)
+    (haway : ∀ e ∈ items, ∀ e' ∈ items, ReadsAway e.s (dest.names ++ [e'.base]))
+    (hcomp : ∀ e ∈ items, Compatible (fs.root.getAt (dest.names ++ [e.base])) e.s.erase)
+    (hlen : dest.names.length + 1 + walkFuel < 256) :
+    ∃ fs', execOps fs c (multiOpsD fs c dest items) = ⟨.ok, fs'⟩ ∧
+      FsEq fs' { fs with root := overlayAllD fs.root dest.names items fs.root } :=
+  multi_deref_sequential fs c dest items hd hn hwf hdd hsrc hnd haway hcomp hlen
+
+/-- … and under EVERY interleaving of the walker with the workers -/
+theorem several_sources_each_dereferenced_on_every_interleaving (fs : Fs) (c : Cfg) (dest : RPath) (items : List DerefSrc)
+    (hd : c.dereference = true) (hn : c.noClobber = false)
+    (hwf : FsEq fs fs)
+    (hdd : ∃ es, fs.root.getAt dest.names = some (.dir es))
+    (hsrc : ∀ e ∈ items, AbsNames e.path ∧ e.path.fileName = some e.base ∧
+      derefS fs walkFuel e.path.names [] = some e.s)
+    (hnd : (items.map (·.base)).Nodup)
+    (haway : ∀ e ∈ items, ∀ e' ∈ items, ReadsAway e.s (dest.names ++ [e'.base]))
+    (hcomp : ∀ e ∈ items, Compatible (fs.root.getAt (dest.names ++ [e.base])) e.s.erase)
+    (hlen : dest.names.length + 1 + walkFuel < 256)
+    (ls : List L0.Label) (st : L0.St)
+    (hrun : L0.run c (L0.init fs (multiOpsD fs c dest items)) ls = some st) :
+    st.failed = false ∧ (L0.final st = true →
+      FsEq st.fs { fs with root := overlayAllD fs.root dest.names items fs.root }) :=
+  multi_deref_concurrent_ok fs c dest items hd hn hwf hdd hsrc hnd haway hcomp hlen ls st hrun
 
 end Xcp.C13
